@@ -7,11 +7,22 @@
                          register j at that moment;
      GETVAR(k) AS name   one  RGet;
      e AS name           no operation;
-     an item whose register name / pure value cannot be computed on this row:  RAbort.
+     an item whose register name / pure value cannot be computed on this row:  RAbort;
+     CASE WHEN c1 THEN b1 ... [ELSE b] END AS name
+                         one  RCase: each guard is the truth value of ci on this row, where a
+                         GETVAR(j) inside ci denotes the contents of register j at that moment (a
+                         ci that is not a truth value: the guard fails); the action of a branch
+                         SETVAR(k, e) is the write a SETVAR item denotes, that of a call-free
+                         branch e is nothing (or a failure, if e cannot be computed on this row);
+                         without ELSE the last action is nothing.
 
    [assemble] rebuilds the output rows from the values the history read: a GETVAR item contributes
-   its read under its name, a pure item its value, a SETVAR item nothing. *)
+   its read under its name, a pure item its value, a SETVAR item nothing; a CASE item consumes the
+   recorded outcomes of its guards, which tell the branch taken: a call-free branch contributes its
+   value under the item's name, a SETVAR branch nothing, no branch (no ELSE) contributes NULL. *)
 From GenqlV Require Import Base.Prelude Base.Value Model.Ast Model.Eval Model.Vars Spec.RegisterSpec.
+
+Local Open Scope list_scope.
 
 Definition opt {A} (x : res A) : option A := match x with Ok a => Some a | _ => None end.
 
@@ -42,6 +53,24 @@ Section Hist.
     | _ => let! v := value_of cur x in Ok (Some v)
     end.
 
+  (* the truth value of a condition on this row, read against a register file *)
+  Definition guard_at (cur : row) (c : expr Q) : regs -> option bool :=
+    fun r => opt (let! rc := eval (env_regs r) cur c in
+                  match rc with RVal (VBool b) => Ok b | _ => Err end).
+
+  Definition act_at (cur : row) (b : branch Q) : act :=
+    match b with
+    | BExpr e => match pure_val cur e with Ok _ => ANone | _ => AFail end
+    | BSet k e =>
+        match key_at cur k with
+        | Some ks => AWrite ks (fun r => opt (arg (env_regs r) cur e))
+        | None => AFail
+        end
+    end.
+
+  Definition els_at (cur : row) (els : option (branch Q)) : act :=
+    match els with Some b => act_at cur b | None => ANone end.
+
   Definition ops (cur : row) (it : item Q) : history :=
     match it with
     | VSet k e =>
@@ -59,6 +88,8 @@ Section Hist.
         | Ok _ => []
         | _ => [RAbort]
         end
+    | VCase whens els _ =>
+        [RCase (map (fun w => (guard_at cur (fst w), act_at cur (snd w))) whens) (els_at cur els)]
     end.
 
   Definition row_history (items : list (item Q)) (cur : row) : history := flat_map (ops cur) items.
@@ -66,6 +97,28 @@ Section Hist.
   (* rows in source order, items left to right *)
   Definition query_history (items : list (item Q)) (rows : list row) : history :=
     flat_map (row_history items) rows.
+
+  (* the branch a CASE item took, from the recorded outcomes of its guards (one per guard computed,
+     the last one true unless all were false); None: no branch (all false, no ELSE) *)
+  Fixpoint taken (whens : list (expr Q * branch Q)) (els : option (branch Q)) (reads : list value)
+    : option (branch Q) * list value :=
+    match whens with
+    | [] => (els, reads)
+    | (_, b) :: r =>
+        match reads with
+        | VBool true :: reads' => (Some b, reads')
+        | _ :: reads' => taken r els reads'
+        | [] => (None, [])
+        end
+    end.
+
+  (* the column a taken branch contributes *)
+  Definition branch_val (cur : row) (b : option (branch Q)) : option value :=
+    match b with
+    | Some (BExpr e) => match pure_val cur e with Ok (Some v) => Some v | _ => None end
+    | Some (BSet _ _) => None
+    | None => Some VNull
+    end.
 
   (* output row from the values read; returns the reads not consumed *)
   Fixpoint assemble_row (cur : row) (items : list (item Q)) (reads : list value) (acc : row)
@@ -83,6 +136,12 @@ Section Hist.
         | Ok (Some v) => assemble_row cur r reads (obj_set name v acc)
         | _ => assemble_row cur r reads acc
         end
+    | VCase whens els name :: r =>
+        let '(b, reads') := taken whens els reads in
+        match branch_val cur b with
+        | Some v => assemble_row cur r reads' (obj_set name v acc)
+        | None => assemble_row cur r reads' acc
+        end
     end.
 
   Fixpoint assemble (items : list (item Q)) (rows : list row) (reads : list value)
@@ -95,13 +154,51 @@ Section Hist.
         (o :: os, reads'')
     end.
 
-  (* the column names a select list produces: every item but the SETVARs *)
+  (* the column names a select list CAN produce: every item but the SETVARs (a CASE item produces
+     its column on the rows where the branch taken is not a SETVAR) *)
   Fixpoint item_names (items : list (item Q)) : list string :=
     match items with
     | [] => []
     | VSet _ _ :: r => item_names r
     | VGet _ name :: r => name :: item_names r
     | VPure _ name :: r => name :: item_names r
+    | VCase _ _ name :: r => name :: item_names r
+    end.
+
+  (* select lists without CASE items: every row has the same columns *)
+  Fixpoint case_free (items : list (item Q)) : Prop :=
+    match items with
+    | [] => True
+    | VCase _ _ _ :: _ => False
+    | _ :: r => case_free r
+    end.
+
+  (* the column an item produces on this row, the map being [m] when the item is reached: a CASE
+     item produces none exactly when the branch it takes ([pick], Model/Vars.v) is a SETVAR *)
+  Definition item_cols (m : vars) (cur : row) (it : item Q) : list string :=
+    match it with
+    | VSet _ _ => []
+    | VGet _ name => [name]
+    | VPure _ name => [name]
+    | VCase whens els name =>
+        match pick data m cur whens els with
+        | Ok (Some (BSet _ _)) => []
+        | _ => [name]
+        end
+    end.
+
+  (* ... of a select list: the map each item finds is the one its predecessors left *)
+  Fixpoint row_cols (m : vars) (cur : row) (items : list (item Q)) : list string :=
+    match items with
+    | [] => []
+    | it :: r => item_cols m cur it ++ row_cols (snd (run_item data m cur [] it)) cur r
+    end.
+
+  (* ... of a table: the map each row finds is the one the rows before it left *)
+  Fixpoint rows_cols (m : vars) (items : list (item Q)) (rows : list row) : list (list string) :=
+    match rows with
+    | [] => []
+    | cur :: r => row_cols m cur items :: rows_cols (snd (run_row data m cur items [])) items r
     end.
 
   (* several queries one after the other *)
@@ -117,6 +214,9 @@ Section Hist.
     end.
 End Hist.
 
+Arguments guard_at {Q}. Arguments act_at {Q}. Arguments els_at {Q}. Arguments taken {Q}.
+Arguments branch_val {Q}. Arguments case_free {Q}. Arguments item_cols {Q}. Arguments row_cols {Q}.
+Arguments rows_cols {Q}.
 Arguments env_regs {Q}. Arguments key_at {Q}. Arguments pure_val {Q}. Arguments ops {Q}.
 Arguments row_history {Q}. Arguments query_history {Q}. Arguments assemble_row {Q}.
 Arguments assemble {Q}. Arguments item_names {Q}. Arguments seq_history {Q}.
